@@ -505,7 +505,7 @@ def run_zeroize_volatile():
         res["undecided_reason"] = "cannot tokenize src/lib.rs: %s" % e
         return res
     i, n = 0, len(toks)
-    bad = []
+    bad, unknown = [], []
     while i < n:
         if toks[i].s == "impl" and i + 3 < n and toks[i + 1].s == "Zeroize" and toks[i + 2].s == "for":
             ty = toks[i + 3].s
@@ -528,12 +528,19 @@ def run_zeroize_volatile():
                 first_ok = bool(stmts) and re.match(r"^let Self (\{[^}]*\}|\([^)]*\)) = self$", stmts[0])
                 rest = stmts[1:] if first_ok else stmts
                 for st in rest:
-                    if not re.match(r"^(self \. )?[A-Za-z_][A-Za-z0-9_]*( \. [0-9A-Za-z_]+)* \. zeroize \( \)$", st):
+                    if not re.match(r"^(self \. )?[0-9A-Za-z_]+( \. [0-9A-Za-z_]+)* \. zeroize \( \)$", st):
                         why = "statement other than `<field>.zeroize()`: `%s`" % st[:100]
+                        # an ordinary store, a conditional or an early exit is the breach; anything else (a new `let`,
+                        # an assertion ...) is only unknown
+                        if not re.search(r"(^| )(=|if|return|match|fill|write|write_bytes|copy_from_slice|clear|truncate)( |$)", st):
+                            unknown.append((ty, toks[i].line, why))
+                            why = "?"
                         break
                 if why is None and not rest:
                     why = "no field is zeroized"
-            if why:
+            if why == "?":
+                pass
+            elif why:
                 bad.append((ty, toks[i].line, why))
             else:
                 res["discharged"] += 1
@@ -544,6 +551,10 @@ def run_zeroize_volatile():
     res["samples"] = [{"obligation": "impl Zeroize bodies consist of a destructuring and `<field>.zeroize()` statements only"}]
     if res["obligations"] == 0:
         res["undecided_reason"] = "no `impl Zeroize for` found in src/lib.rs"
+        return res
+    if not bad and unknown:
+        res["undecided_reason"] = "Zeroize impl of a shape this scan does not know: " + "; ".join(
+            "%s (src/lib.rs:%d): %s" % u for u in unknown[:3])
         return res
     if not bad:
         res["status"] = "pass"
